@@ -7,6 +7,7 @@ CONSTANTS
  FamStreams <- NoValues  FamBase = 3  FamGroups <- NoValues
  ParkA <- NoValues  ParkB <- NoValues
  EncN <- NoValues
+ HashU <- NoValues  HashV <- NoValues
  Volume = TRUE
  MinSteps = 7  MaxSteps = 7
 CONSTRAINT Emit
